@@ -1333,3 +1333,14 @@ package larking
 //@   count rulesAdded `s.path.addRule(`
 //@   assert atcall `s.path.addRule(` [every-rule-kind-is-compiled-for-the-same-method C19] arg2 == desc && arg3 == h.method
 //@   assert atcall `opts.httprules.getRules(` [service-config-rules-are-looked-up-by-full-name C19] rulesAdded == 1
+
+// ---------------------------------------------------------------------------
+// mux.go: protocol dispatch. "application/grpc-web..." also starts with
+// "application/grpc": a gRPC-web request must reach serveGRPCWeb whatever HTTP
+// version carried it (browsers speak HTTP/2 to a TLS server), never the plain gRPC
+// entry, which refuses its content type (C05, C06: gRPC-web is one of the transports).
+//@ det HeaderGet "(http.Header).Get" string
+//@ func (*Mux).ServeHTTP serves C06 C05 partial ghost
+//@   requires m != nil && r != nil
+//@   assert atcall `m.serveGRPC(` [grpc-web-is-never-dispatched-as-plain-grpc C06 C05] !hasprefix(HeaderGet(r.Header, "Content-Type"), "application/grpc-web")
+//@   witness verifWitnessGRPCWebOverHTTP2 for grpc-web-is-never
